@@ -62,15 +62,19 @@ class OpSequence(Harness):
         self.nm = [z3.String('nm%d' % i) for i in range(L)]
         self.flag = [z3.Bool('fl%d' % i) for i in range(L)]
         self.an = [z3.String('an%d' % i) for i in range(L)]
-    def consts(self): return self.kind + self.nm + self.flag + self.an
-    def domains(self): return {str(c): NAMES for c in self.nm + self.an}
+        self.an2 = [z3.String('an2_%d' % i) for i in range(L)]; self.flag2 = [z3.Bool('fl2_%d' % i) for i in range(L)]
+        self.init_n = z3.Int('root_attrs')          # the root is created with 0, 1 (a) or 2 (a, b) attributes
+    def consts(self): return self.kind + self.nm + self.flag + self.an + self.an2 + self.flag2 + [self.init_n]
+    def domains(self): return {str(c): NAMES for c in self.nm + self.an + self.an2}
     def preconditions(self):
         allowed = [OPS.index(o) for o in self.ops]
         pre = [z3.Or(*[k == a for a in allowed]) for k in self.kind]
-        pre += [z3.Or(*[c == z3.StringVal(n) for n in NAMES]) for c in self.nm + self.an]
+        pre += [z3.Or(*[c == z3.StringVal(n) for n in NAMES]) for c in self.nm + self.an + self.an2]
+        pre += [a != b for a, b in zip(self.an, self.an2)] + [self.init_n >= 0, self.init_n <= 2]          # the merged list is duplicate-free (merge_necessity's precondition)
         return pre
     def run(self, m):
-        P = m.call_fn(m.impls['Element']['new'], [RStr('r'), RVec([])]); MP = MNode('r')
+        ra = [] if m.branch(self.init_n == 0) else (['a'] if m.branch(self.init_n == 1) else ['a', 'b'])
+        P = m.call_fn(m.impls['Element']['new'], [RStr('r'), RVec([RStr(x) for x in ra])]); MP = MNode('r', ra)
         C = None; MC = None          # staged child
         D = None; MD = None          # last removed child (it keeps the position it had)
         conds = []; log = []
@@ -112,16 +116,20 @@ class OpSequence(Harness):
                 got2 = m.call_fn(E['get_child_mut'], [RStr(nm)], self_val=P)
                 conds.append(('step %d get_child_mut agrees with get_child' % i, got2.variant == got.variant))
             elif k == 'merge':
-                tag = 'Mandatory' if m.branch(self.flag[i]) else 'Optional'
-                an = Frags([self.an[i]])
-                P = m.call_fn(E['merge_attr'], [RVec([REnum('Necessity', tag, [RStr(an)])])], self_val=P)
-                # model: C15's definition
-                found = False
+                # merge a list of one or two attributes (symbolic names and tags); model = C15's definition of the merge
+                items = [('Mandatory' if m.branch(self.flag[i]) else 'Optional', Frags([self.an[i]]))]
+                if m.branch(self.flag2[i]): items.append(('Mandatory', Frags([self.an2[i]])))
+                P = m.call_fn(E['merge_attr'], [RVec([REnum('Necessity', t, [RStr(a)]) for t, a in items])], self_val=P)
+                matched = [False] * len(items)
                 for a in MP.attrs:
-                    if m.branch(m.eq(RStr(a[1]), RStr(an))):
-                        found = True; a[0] = 'M' if (a[0] == 'M' and tag == 'Mandatory') else 'O'
-                    else: a[0] = 'O'
-                if not found: MP.attrs.append(['O', an])
+                    hit = None
+                    for x, (t, an) in enumerate(items):
+                        if m.branch(m.eq(RStr(a[1]), RStr(an))): hit = x; break
+                    if hit is None: a[0] = 'O'
+                    else:
+                        matched[hit] = True; a[0] = 'M' if (a[0] == 'M' and items[hit][0] == 'Mandatory') else 'O'
+                for x, (t, an) in enumerate(items):
+                    if not matched[x]: MP.attrs.append(['O', an])
             elif k == 'mult':
                 tgt, mt = (C, MC) if (C is not None and m.branch(self.flag[i])) else (P, MP)
                 m.call_fn(E['set_multiple'], [], self_val=tgt); mt.multiple = True
@@ -191,14 +199,14 @@ class OpSequence(Harness):
             elif k == 'opt': ops.append({'op': 'opt', 'r': 0, 'name': nm})
             elif k == 'rm': ops.append({'op': 'rm', 'r': 0, 'name': nm, 'd': 2})
             elif k == 'get': ops.append({'op': 'get', 'r': 0, 'name': nm})
-            elif k == 'merge': ops.append({'op': 'merge', 'r': 0, 'attrs': [['M' if fl else 'O', an]]})
+            elif k == 'merge': ops.append({'op': 'merge', 'r': 0, 'attrs': [['M' if fl else 'O', an]] + ([['M', a['an2_%d' % i]]] if a['fl2_%d' % i] else [])})
             elif k == 'mult': ops.append({'op': 'mult', 'r': 1 if (staged and fl) else 0})
             elif k == 'text': ops.append({'op': 'text', 'r': 1 if (staged and fl) else 0, 'text': 't'})
             elif k == 'nest':
                 if staged: ops += [{'op': 'new', 'r': 3, 'name': nm}, {'op': 'add', 'r': 1, 'c': 3}]
             elif k == 'readd': ops.append({'op': 'add', 'r': 0, 'c': 2})
             elif k == 'dupadd': ops += [{'op': 'clonechild', 'r': 0, 'name': nm, 'd': 4}, {'op': 'add', 'r': 0, 'c': 4}]
-        return {'ops': [{'op': 'new', 'r': 0, 'name': 'r'}] + ops, 'regs': 5}
+        return {'ops': [{'op': 'new', 'r': 0, 'name': 'r', 'attrs': ['a', 'b'][:a.get('root_attrs', 0)]}] + ops, 'regs': 5}
     def result_summary(self, m, out, model):
         return {'tree': tree_from_rsym(out['P'], lambda v: X.mval(model, v)), 'output': X.mval(model, out['out']) if out['out'] is not None else None}
     def validate_sample(self, s, replay):
